@@ -72,6 +72,13 @@ def generate(rng, tier, idx):
     if rng.random() < (0.03 if tier == 'thorough' else 0.004):
         nsrc = rng.choice([101, 130])          # a long catalogue: anything that depends on the NUMBER of sources seen so far
     sources = [gen_source(rng, nf, 's%02d' % i) for i in range(nsrc)]
+    if rng.random() < 0.3:
+        # catalogue-style designations: mixed case, signs, dots, one far longer than the 30 characters of Source.to_ascii
+        pool_ = ['J0534-0523', 'IRAS_05327+3404', 'Sz-19b', 'src.12', 'HD_37903', 'V*_FU_Ori', '2MASS_J05352184-0546085_epoch2_reprocessed',
+                 'x', 'NGC2264-IRS1', 'obj_%d' % rng.randrange(1000), 'Ab', 'aB']
+        rng.shuffle(pool_)
+        for i_, s_ in enumerate(sources):
+            s_['name'] = pool_[i_] if i_ < len(pool_) else '%s_%d' % (pool_[i_ % len(pool_)], i_)
     if nsrc > 1 and rng.random() < 0.3:
         # a catalogue may list the same name on several lines (two epochs of one object): each LINE is a source
         for _ in range(rng.randint(1, 3)):
@@ -151,7 +158,7 @@ def _writer(sc, sim, W, d, text, outp):
         src = data
     else:
         src = env.SimReader(sim, text)
-    return pipe.call(pipe.fit, src, names, ap, d, outp, n_data_min=sc['n_data_min'], output_format=tuple(sc['sel']),
+    return pipe.call(pipe.fit, src, names, ap, d, outp, n_data_min=sc['n_data_min'], output_format=pipe.sel_arg(sc['sel']),
                      output_convolved=sc['output_convolved'], remove_resolved=bool(sc.get('remove_resolved')), **pipe.fitter_kwargs(W, sc))
 
 
@@ -193,7 +200,7 @@ def _execute_manual(sc, sim, out):
         info = ri[1]
         if not st['fluxes']:
             info.model_fluxes = None
-        info.keep(tuple(st['sel']))
+        info.keep(pipe.sel_arg(st['sel']))
         written.append(canon_record(info, meta=True))          # what is handed to the writer, at the moment it is written
         rw = pipe.call(f.write, info)
         if rw[0] != 'ok':
